@@ -133,7 +133,9 @@ class FeatureEdgeDetector(Worker):
         if self.only_border : return feature_attr
         DOT_THRESHOLD = 0.2
         if mesh.edges.has_attribute("hard_edges"):
-            for e in mesh.edges.get_attribute("hard_edges"):
+            hard_edges = mesh.edges.get_attribute("hard_edges")
+            for e in hard_edges:
+                if not hard_edges[e]: continue # entry explicitly set to False: not a declared hard edge
                 A,B = mesh.edges[e]
                 T1,T2 = mesh.connectivity.edge_to_faces(A,B)
                 if T1 is None or T2 is None : continue
